@@ -320,6 +320,7 @@ theorem stepOp_ok (s : St) (op : Op) (hs : StOk s) (ho : OpOk op) : StOk (stepOp
     split
     · exact hs
     · exact hs
+  | fdbase n => simp only [stepOp]; exact hs
   | spin =>
     simp only [stepOp]
     intro f hf
@@ -542,6 +543,10 @@ theorem read_request_kept (s : St) (hs : StOk s) (op : Op) (i : Nat) (f : Fd) (r
     left
     refine ⟨f, ?_, by rw [hr]; rfl⟩
     simp only [stepOp]; split <;> exact hi
+  | fdbase n =>
+    left
+    refine ⟨f, ?_, by rw [hr]; rfl⟩
+    simp only [stepOp]; exact hi
   | spin =>
     obtain ⟨l1, l2, h1, h2, _⟩ := spin_out s
     have hget := spinAll_get s.fds 0 i
